@@ -227,16 +227,16 @@ ExecJa(i) == /\ Advance(1 + i.off)
 
 \* Named deviation (known finding, enabled only when its key is in env.dev): the pinned
 \* interpreter zero-extends the immediate of the 64-bit equality / unsigned comparisons.
-Dev_JmpImmZeroExt(i) ==
-  /\ "jmp_imm_zext" \in env.dev
+Dev_JmpImmZeroExt(i, D) ==
+  /\ "jmp_imm_zext" \in D
   /\ Cls(i.opc) = CLS_JMP /\ SrcBit(i.opc) = 0
   /\ Op(i.opc) \in {J_EQ, J_NE, J_GT, J_GE, J_LT, J_LE}
 
-ExecCondJmp(i) ==
+ExecCondJmp(i, D) ==
   LET full == Cls(i.opc) = CLS_JMP
       op   == Op(i.opc)
       b    == IF SrcBit(i.opc) = 1 THEN reg[i.src]
-              ELSE IF Dev_JmpImmZeroExt(i) THEN ImmZ(i) ELSE ImmWord(i)
+              ELSE IF Dev_JmpImmZeroExt(i, D) THEN ImmZ(i) ELSE ImmWord(i)
       tb   == IF SrcBit(i.opc) = 1 THEN rt[i.src] ELSE "c"
   IN /\ Advance(IF Cond(op, full, reg[i.dst], b) THEN 1 + i.off ELSE 1)
      /\ defd' = (defd /\ TaintCondOK(op, full, rt[i.dst], tb))
@@ -297,7 +297,8 @@ ExecExit ==
 (***************************************************************************)
 RegsOK(i) == (UsesDst(i.opc) => i.dst <= 10) /\ (UsesSrc(i.opc) => i.src <= 10)
 
-Step(hr) ==
+\* D: the named deviations in force for this step (normally env.dev, i.e. none)
+StepD(hr, D) ==
   /\ Running
   /\ IF env.budget > 0 /\ steps >= env.budget THEN Halt(StErr("budget"))
      ELSE IF ~InProg(Prog, pc) THEN Halt(StStuck("pc_outside"))
@@ -318,13 +319,15 @@ Step(hr) ==
              ELSE IF IsStx(o) THEN ExecStx(i)
              ELSE IF IsXadd(o) THEN ExecXadd(i)
              ELSE IF o = JA THEN ExecJa(i)
-             ELSE IF IsCondJmp(o) \/ IsCondJmp32(o) THEN ExecCondJmp(i)
+             ELSE IF IsCondJmp(o) \/ IsCondJmp32(o) THEN ExecCondJmp(i, D)
              ELSE IF o = CALL THEN
                      (IF i.src = 0 THEN ExecCallHelper(i, hr)
                       ELSE IF i.src = 1 THEN ExecCallLocal(i)
                       ELSE Halt(StErr("calltype")))
              ELSE IF o = EXIT THEN ExecExit
              ELSE Halt(StStuck("opcode"))
+
+Step(hr) == StepD(hr, env.dev)
 
 (***************************************************************************)
 (* Initial state of an execution (C09).  The caller supplies the           *)
